@@ -309,9 +309,20 @@ void vf::run_case(Src &s, Ctx &c)
                 if (what == 0)
                     smp->sampleUniform(X);
                 else if (what == 1)
-                    smp->sampleUniformNear(X, A, s.flag() ? delta : s.real(0.01, 2));
+                {
+                    // from the step size up to many times the manifold's curvature radius (where every projection attempt may fail)
+                    size_t dk = s.weighted({3, 3, 2});
+                    double dist = dk == 0 ? delta : dk == 1 ? s.real(0.01, 2) : s.logreal(2, 60);
+                    c.count(dk == 2 ? "sampler-distance:2..60" : "sampler-distance:<=2");
+                    smp->sampleUniformNear(X, A, dist);
+                }
                 else
-                    smp->sampleGaussian(X, A, s.flag() ? delta : s.real(0.01, 1));
+                {
+                    size_t dk = s.weighted({3, 3, 2});
+                    double sd = dk == 0 ? delta : dk == 1 ? s.real(0.01, 1) : s.logreal(1, 30);
+                    c.count(dk == 2 ? "sampler-stddev:1..30" : "sampler-stddev:<=1");
+                    smp->sampleGaussian(X, A, sd);
+                }
                 onManifold(X, what == 0 ? "uniform-sample" : what == 1 ? "near-sample" : "gaussian-sample", "sampler");
             }
             catch (const ompl::Exception &e)
